@@ -485,6 +485,21 @@ def build_derived(kind, f1, f2, rng):
                  'NMTOKEN': ['', 'a', 'a 1', '1  2\t3', 'a b c d', 'a b c d e', 'a b,c', 'a (b)', ' -x '],
                  'boolean': ['', 'true', '1 0', 'true  false\t1', '1 0 1 0', '1 0 1 0 1', 'true yes', 'TRUE', ' 0 ']}[item]
         return xsd, chk, texts
+    if kind == 'union' and rng.random() < 0.4:
+        # a pattern on a restriction of a union: it applies to the text as normalised by the member type that accepts
+        # it (xs:string preserves whitespace, xs:int collapses it)
+        pat = rng.choice(list(PY_PATTERNS))
+        xsd = (f'<xs:schema xmlns:xs="{XS}"><xs:simpleType name="U"><xs:union memberTypes="xs:int xs:string"/></xs:simpleType>'
+               f'<xs:simpleType name="R"><xs:restriction base="U"><xs:pattern value="{esc(pat)}"/></xs:restriction></xs:simpleType>'
+               f'<xs:element name="e" type="R"/></xs:schema>')
+
+        def chk(t, version):
+            n = DT.normalize('int', t)
+            if DT.lexical_ok('int', n, version):
+                return bool(re.fullmatch(PY_PATTERNS[pat], n))
+            return bool(re.fullmatch(PY_PATTERNS[pat], t))
+        texts = ['ab', 'ab ', ' ab', 'a b', 'ab  c', 'abc', 'axc', 'a\tc', '12', ' 12 ', '123', '1234', 'x', ' x ', 'x\n', 'bc', 'a', '', 'bbb', 'ccc ']
+        return xsd, chk, texts
     if kind == 'union':
         xsd = (f'<xs:schema xmlns:xs="{XS}"><xs:simpleType name="S"><xs:restriction base="xs:int">{facet_xml(f1)}</xs:restriction></xs:simpleType>'
                f'<xs:simpleType name="U"><xs:union memberTypes="S xs:boolean"><xs:simpleType><xs:restriction base="xs:token">'
